@@ -56,6 +56,9 @@ pub enum HOp {
 pub enum Stream {
 	Geometry { geo: Geo, relation: u8, aux: [f32; 4] },
 	History { ops: Vec<HOp>, ibs: usize, nested: bool, map_in: (f64, f64) },
+	/// a spatial track (listener B, emitter e2) inside - optionally through a plain track -
+	/// a spatial track (listener A, emitter e1); the listeners may be dropped
+	Nested { a: [f32; 3], b: [f32; 3], e1: [f32; 3], e2: [f32; 3], drop_a: Option<usize>, drop_b: Option<usize>, callbacks: usize, ibs: usize, mid_plain: bool },
 }
 
 #[derive(Clone, Debug, Serialize, Deserialize)]
@@ -73,7 +76,20 @@ fn rand_quat(rng: &mut Rng) -> [f32; 4] {
 fn gen_case(seed: u64, index: u64, tier: Tier) -> Case {
 	let mut rng = Rng::new(seed);
 	let v3 = |rng: &mut Rng, r: f64| -> [f32; 3] { [rng.frange(-r, r) as f32, rng.frange(-r, r) as f32, rng.frange(-r, r) as f32] };
-	let stream = if index % 3 != 2 {
+	let stream = if index % 6 == 5 {
+		let callbacks = rng.urange(3, 8);
+		Stream::Nested {
+			a: v3(&mut rng, 5.0),
+			b: v3(&mut rng, 5.0),
+			e1: v3(&mut rng, 10.0),
+			e2: v3(&mut rng, 10.0),
+			drop_a: if rng.chance(0.3) { Some(rng.usize_below(callbacks)) } else { None },
+			drop_b: if rng.chance(0.4) { Some(rng.usize_below(callbacks)) } else { None },
+			callbacks,
+			ibs: *rng.pick(&[4usize, 32, 128]),
+			mid_plain: rng.chance(0.5),
+		}
+	} else if index % 3 != 2 {
 		let edge = rng.chance(0.2);
 		let any_strength = rng.f64() as f32;
 		let geo = Geo {
@@ -93,6 +109,13 @@ fn gen_case(seed: u64, index: u64, tier: Tier) -> Case {
 			attenuation: if rng.chance(0.2) { None } else { Some(EasingSpec::gen(&mut rng)) },
 			strength: *rng.pick(&[0.0f32, 0.75, 1.0, 0.3, any_strength]),
 		};
+		// (edge: the emitter exactly at one of the listener's ears, 0.1 to either side of its position)
+		let mut geo = geo;
+		if rng.chance(0.06) {
+			let q = Quat::from_xyzw(geo.rot[0], geo.rot[1], geo.rot[2], geo.rot[3]);
+			let side = if rng.chance(0.5) { Vec3::X } else { Vec3::NEG_X };
+			geo.emitter = (Vec3::from(geo.listener) + q * (side * 0.1)).into();
+		}
 		Stream::Geometry {
 			geo,
 			relation: rng.below(6) as u8,
@@ -293,7 +316,11 @@ fn run_geometry(geo: &Geo, relation: u8, aux: &[f32; 4], res: &mut CaseResult, t
 				let (ml, mr) = (m.0 / 0.5, m.1 / 0.5);
 				// near the distance limits a rounding of the distance can flip in / out of range
 				let margin = (d - min).abs().min((d - max).abs());
-				if margin > 1e-3 && ((ml - gl).abs() > 3e-3 || (mr - gr).abs() > 3e-3) {
+				// (the direction from an ear to an emitter sitting exactly on that ear is undefined:
+				// any rounding of the moved scene picks an arbitrary one)
+				let local = q.inverse() * (Vec3::from(geo.emitter) - l);
+				let on_an_ear = (local - Vec3::X * 0.1).length() < 1e-2 || (local + Vec3::X * 0.1).length() < 1e-2;
+				if margin > 1e-3 && !on_an_ear && ((ml - gl).abs() > 3e-3 || (mr - gr).abs() > 3e-3) {
 					res.fail(Violation::new("geometry", "not-invariant-under-rigid-motion", format!("{geo:?}: gains ({gl}, {gr}); after a rigid motion ({ml}, {mr})")));
 				}
 				res.hit("geometry.rigid_motion");
@@ -563,11 +590,114 @@ fn run_history(ops: &[HOp], ibs: usize, nested: bool, map_in: (f64, f64), res: &
 	let _ = Ordering::SeqCst;
 }
 
+#[allow(clippy::too_many_arguments)]
+fn run_nested(a: [f32; 3], b: [f32; 3], e1: [f32; 3], e2: [f32; 3], drop_a: Option<usize>, drop_b: Option<usize>, callbacks: usize, ibs: usize, mid_plain: bool, res: &mut CaseResult, trace: &mut Hasher64, beh: &mut Hasher64) {
+	let Some(mut m) = manager(ibs) else { return };
+	let device = m.backend_mut().device.clone();
+	let map_in = (0.0, 40.0);
+	let built = monitor::catch(move || {
+		let la = m.add_listener(Vec3::from(a), Quat::IDENTITY).unwrap();
+		let lb = m.add_listener(Vec3::from(b), Quat::IDENTITY).unwrap();
+		let mut ob = SpatialTrackBuilder::new().distances((1.0, 60.0)).spatialization_strength(0.0);
+		let outer_log = ob.add_effect(DistProbeBuilder { map_in });
+		let mut outer = m.add_spatial_sub_track(&la, Vec3::from(e1), ob).unwrap();
+		let mut ib = SpatialTrackBuilder::new().distances((1.0, 60.0)).spatialization_strength(0.0);
+		let inner_log = ib.add_effect(DistProbeBuilder { map_in });
+		let (mid, mut inner) = if mid_plain {
+			let mut mid = outer.add_sub_track(TrackBuilder::new()).unwrap();
+			let inner = mid.add_spatial_sub_track(&lb, Vec3::from(e2), ib).unwrap();
+			(Some(mid), inner)
+		} else {
+			(None, outer.add_spatial_sub_track(&lb, Vec3::from(e2), ib).unwrap())
+		};
+		let mut gb = TrackBuilder::new();
+		let grand_log = gb.add_effect(DistProbeBuilder { map_in });
+		let mut grand = inner.add_sub_track(gb).unwrap();
+		grand.play(dc(0.5, 0.5)).unwrap();
+		(m, la, lb, outer, mid, inner, grand, outer_log, inner_log, grand_log)
+	});
+	let Ok((m, la, lb, outer, mid, inner, grand, outer_log, inner_log, grand_log)) = built else {
+		res.fail(Violation::new("finite", "nested-construction-panicked", "building nested spatial tracks panicked".to_string()));
+		return;
+	};
+	let (mut la, mut lb) = (Some(la), Some(lb));
+	let (da, db) = ((Vec3::from(a) - Vec3::from(e1)).length(), (Vec3::from(b) - Vec3::from(e2)).length());
+	let mut out = Vec::new();
+	// (a listener dropped in the gap before callback k is gone from callback max(k, 1) on)
+	let gone = |d: Option<usize>, cb: usize| d.map(|k| cb >= k.max(1)).unwrap_or(false);
+	for cb in 0..callbacks {
+		if drop_a == Some(cb) {
+			la = None;
+		}
+		if drop_b == Some(cb) {
+			lb = None;
+		}
+		let rep = device.callback(ibs + ibs / 2, 2, &mut out);
+		if let Some(p) = rep.panic {
+			res.fail(Violation::new("finite", format!("audio-panic: {}", panic_signature(&p)), format!("callback {cb}: {p}")));
+			return;
+		}
+		let (a_gone, b_gone) = (gone(drop_a, cb), gone(drop_b, cb));
+		for (name, log, want) in [
+			("the outer spatial track", &outer_log, if a_gone { None } else { Some(da) }),
+			("the inner spatial track", &inner_log, if b_gone { None } else { Some(db) }),
+			("a plain track inside the inner spatial track", &grand_log, if b_gone { None } else { Some(db) }),
+		] {
+			let entries: Vec<(Option<f32>, f64)> = std::mem::take(&mut *log.lock().unwrap());
+			// (a track below a silent spatial track may not be processed at all)
+			for (seen, param) in entries {
+				trace.f64(param);
+				match (want, seen) {
+					(Some(w), Some(g)) if (w - g).abs() <= 1e-3 * (1.0 + w) => {
+						let amount = ((g as f64 - map_in.0) / (map_in.1 - map_in.0)).clamp(0.0, 1.0);
+						if (param - amount).abs() > 1e-6 {
+							res.fail(Violation::new("linked-distance", "linked-parameter-does-not-follow-distance", format!("callback {cb}: {name}: distance {g} maps to {amount}, the parameter is {param}")));
+							return;
+						}
+						res.hit("nested_distance_links_checked");
+					}
+					(None, None) => {}
+					_ => {
+						res.fail(Violation::new(
+							"linked-distance",
+							"nested-spatial-track-uses-wrong-listener",
+							format!("callback {cb}: an effect on {name} sees listener distance {seen:?}; its own listener and emitter are {want:?} apart (outer track: listener A {a:?} emitter {e1:?}, {da} apart{}; inner track: listener B {b:?} emitter {e2:?}, {db} apart{})", if a_gone { ", A dropped" } else { "" }, if b_gone { ", B dropped" } else { "" }),
+						));
+						return;
+					}
+				}
+			}
+		}
+		let audible = out.iter().any(|s| *s != 0.0);
+		if out.iter().any(|s| !s.is_finite()) {
+			res.fail(Violation::new("finite", "non-finite-output", format!("callback {cb}")));
+			return;
+		}
+		if (a_gone || b_gone) && audible {
+			res.fail(Violation::new("needs-listener", "audible-without-listener", format!("callback {cb}: listener {} does not exist but the nested spatial tracks are audible", if b_gone { "B (inner track)" } else { "A (outer track)" })));
+			return;
+		}
+		if !a_gone && !b_gone && cb >= 1 && da < 50.0 && db < 50.0 && !audible {
+			res.fail(Violation::new("needs-listener", "silent-with-listener", format!("callback {cb}: both listeners exist ({da} and {db} from their emitters, max 60) but the output is silent")));
+			return;
+		}
+		beh.u64(a_gone as u64 + 2 * b_gone as u64);
+	}
+	res.nontrivial = true;
+	res.callbacks = callbacks as u64;
+	res.hit("type.nested_spatial");
+	drop((grand, inner, mid, outer, la, lb, m));
+}
+
 pub fn run_case(case: &Case) -> CaseResult {
 	let mut res = CaseResult::default();
 	let mut trace = Hasher64::new();
 	let mut beh = Hasher64::new();
 	match &case.stream {
+		Stream::Nested { a, b, e1, e2, drop_a, drop_b, callbacks, ibs, mid_plain } => {
+			run_nested(*a, *b, *e1, *e2, *drop_a, *drop_b, *callbacks, *ibs, *mid_plain, &mut res, &mut trace, &mut beh);
+			beh.u64(*mid_plain as u64 + 10);
+		}
 		Stream::Geometry { geo, relation, aux } => {
 			run_geometry(geo, *relation, aux, &mut res, &mut trace);
 			res.nontrivial = true;
